@@ -25,6 +25,14 @@ Definition conv_case_ok (c : nat * nat * nat * nat * nat * nat * nat * list (lis
   let src := fun p k => p * stride + k * dil in
   zll_eqb (map (fun o => flat_map (fun ch => map (fun k => conv_gs_w Z 0%Z Z.add Z.mul P chan src (nth2 g) (nth2 xp) o ch k) (seq 0 Kk)) (seq 0 cg)) (seq 0 Oc)) gw &&
   zlist_eqb (map (fun o => conv_gs_b Z 0%Z Z.add P (nth2 g) o) (seq 0 Oc)) gb.
+(* conv2d case: (Ph, Pw, O, cg, Kh, Kw, og, (sh, sw), (dh, dw), Wp = width of the padded input, padded input rows [channel][h * Wp + w],
+   backprops rows [ph * Pw + pw][o], weight grad_sample rows [o][(c * Kh + kh) * Kw + kw], bias grad_sample [o]) *)
+Definition conv2_case_ok (c : nat * nat * nat * nat * nat * nat * nat * (nat * nat) * (nat * nat) * nat * list (list Z) * list (list Z) * list (list Z) * list Z) : bool :=
+  let '(Ph, Pw, Oc, cg, Kh, Kw, og, st, dl, Wp, xp, g, gw, gb) := c in
+  let chan := fun o ch => (o / og) * cg + ch in
+  let src := fun p k => ((p / Pw) * fst st + (k / Kw) * fst dl) * Wp + ((p mod Pw) * snd st + (k mod Kw) * snd dl) in
+  zll_eqb (map (fun o => flat_map (fun ch => map (fun k => conv_gs_w Z 0%Z Z.add Z.mul (Ph * Pw) chan src (nth2 g) (nth2 xp) o ch k) (seq 0 (Kh * Kw))) (seq 0 cg)) (seq 0 Oc)) gw &&
+  zlist_eqb (map (fun o => conv_gs_b Z 0%Z Z.add (Ph * Pw) (nth2 g) o) (seq 0 Oc)) gb.
 (* EmbeddingBag case, one bag: (pad (-1 = none), T, V, D, idx [t], backprop [d], grad_sample rows [v][d] multiplied by the number of
    non-padding entries for mode mean -- i.e. compared with the model at s = 1) *)
 Definition bag_case_ok (c : Z * nat * nat * nat * list Z * list Z * list (list Z)) : bool :=
